@@ -153,6 +153,63 @@ theorem eval_deterministic {V : Type} (G : Graph V) (M entry : Nat) (fc : List N
   rw [e1, e2]
   exact ⟨rfl, rfl⟩
 
+/-! ## state outside the context: lazy array-formula expansion ("returns the same answer every time it is asked") -/
+
+/-- the flag is set only after a successful expansion (regenerated from cell.go) -/
+theorem lazy_flag_fact : Facts.C09.flagSetBeforeExpansion = false := by decide
+
+/-- **The answer does not depend on how often the workbook was evaluated before.**  For every
+workbook content (expansion fails or not), every cell and every number `k` of earlier
+evaluations on the same `*File`, the next answer equals the answer of a freshly opened
+`*File`. -/
+theorem lazy_answer_history_independent (expandFails : Bool) (cellAns : Ans) (k : Nat) :
+    (evalLazy expandFails cellAns (stateAfter expandFails cellAns k)).1 =
+      (evalLazy expandFails cellAns ⟨false⟩).1 := by
+  have hf := lazy_flag_fact
+  -- every reachable state is the initial one, or `checked` after a successful expansion
+  have key : ∀ st : LazySt, (st = ⟨false⟩ ∨ (st = ⟨true⟩ ∧ expandFails = false)) →
+      ((evalLazy expandFails cellAns st).1 = (evalLazy expandFails cellAns ⟨false⟩).1 ∧
+       ((evalLazy expandFails cellAns st).2 = ⟨false⟩ ∨
+        ((evalLazy expandFails cellAns st).2 = ⟨true⟩ ∧ expandFails = false))) := by
+    intro st h
+    rcases h with h | ⟨h, he⟩
+    · subst h
+      cases expandFails <;> simp [evalLazy, hf]
+    · subst h; subst he
+      simp [evalLazy, hf]
+  have inv : ∀ k, (stateAfter expandFails cellAns k = ⟨false⟩ ∨
+      (stateAfter expandFails cellAns k = ⟨true⟩ ∧ expandFails = false)) := by
+    intro k
+    induction k with
+    | zero => exact Or.inl rfl
+    | succ k ih => exact (key _ ih).2
+  exact (key _ (inv k)).1
+
+/-- the same in transcript form: `n` consecutive evaluations give `n` equal answers -/
+theorem lazy_answers_constant (expandFails : Bool) (cellAns : Ans) (n : Nat) :
+    (runLazy expandFails cellAns n ⟨false⟩).map (·.1) =
+      List.replicate n (evalLazy expandFails cellAns ⟨false⟩).1 := by
+  have hf := lazy_flag_fact
+  cases expandFails
+  · -- expansion succeeds: after the first evaluation the flag is set and the cell answer is repeated
+    have h2 : ∀ n, (runLazy false cellAns n ⟨true⟩).map (·.1) = List.replicate n cellAns := by
+      intro n
+      induction n with
+      | zero => rfl
+      | succ n ih => simp [runLazy, evalLazy, List.replicate_succ, ih]
+    cases n with
+    | zero => rfl
+    | succ n => simp [runLazy, evalLazy, hf, List.replicate_succ, h2]
+  · -- expansion fails: the flag stays clear and every evaluation reports the error
+    induction n with
+    | zero => rfl
+    | succ n ih =>
+      simp only [runLazy, List.map_cons, List.replicate_succ]
+      have : (evalLazy true cellAns ⟨false⟩) = (.error, ⟨false⟩) := by simp [evalLazy, hf]
+      rw [this] at ih ⊢
+      simp only [List.cons.injEq, true_and]
+      exact ih
+
 /-! ## non-vacuity -/
 
 /-- a two-cell cycle A = B + 1, B = A + 1 evaluated at A with M = 0: B is evaluated once,
